@@ -160,6 +160,20 @@ CHECKS["C06"] = (
     "DESIGN.md §3 C06",
 )
 
+CHECKS["C20"] = (
+    "exploration",
+    "quiescent-point invariant monitor on copyreg.dispatch_table (baseline taken before the library copies anything) over copying histories, sys.monitoring line failpoints as abort points, and a deterministic sys.monitoring thread scheduler (cooperative locks) enumerating preemptions on every line of the copy-protection code",
+    "Monitor 1: after every operation of hand-written module-bearing workloads (nesting depth 1-3) and grammar-generated histories, "
+    "under three table preconditions (clean, user entry for a user class, user entry for ModuleType), the dispatch table must hold "
+    "exactly the baseline entries and the protection bookkeeping must be idle. Monitor 2: the same after aborting each operation at "
+    "executed library lines. Monitor 3: 2 and 3 real threads deep-copying module-bearing values run under a baton-passing scheduler: "
+    "all single preemptions at every executed line of utils/mutation.py, all (thorough) or sampled (quick) double preemptions, and "
+    "PCT-style random priorities; every thread must succeed and the table must equal the baseline afterwards.",
+    "Trusted: the scheduler only preempts at statement starts (any schedule it produces is real; schedules inside a statement are not explored). "
+    "with-statement lines are not used as abort points. Open known finding: aborts inside the bookkeeping methods themselves.",
+    "DESIGN.md §3 C20",
+)
+
 NOT_YET = {}
 
 
